@@ -284,6 +284,8 @@ class Interp:
         self.trace = False
         self.fresh_n = 0
         self.instr_budget = 5_000_000
+        self.max_alloc = 1 << 20
+        self.path_instr0 = 0
         self.call_hooks = {}   # fn name -> callable(interp, fn, args) -> (handled, result)
         self.store_hook = None
         self.alloc_log = None
@@ -631,7 +633,7 @@ class Interp:
                     regs[ins[j]['r']] = vals[j]
             nxt = None
             st.instrs += len(ins) - n
-            if st.instrs > self.instr_budget:
+            if st.instrs - self.path_instr0 > self.instr_budget:
                 raise UnwindLimit('instruction budget')
             for j in range(n, len(ins)):
                 i = ins[j]
@@ -947,9 +949,15 @@ class Interp:
             h = self.call_hooks.get('MakeSlice')
             if h is not None:
                 regs[i['r']] = h(self, i, ln, cp, elem); return
-            # negative length panics; otherwise bounded concretisation
+            # negative or absurd length panics (runtime: len*elemsize > maxAlloc = 2^48); a length the
+            # runtime would try to honour but that is beyond the exploration bound ends the path as
+            # unsupported (never success); otherwise bounded concretisation
             if self.branch(ln < 0):
                 self.rt_panic('makeslice: len out of range')
+            if self.branch(ln > (1 << 47)):
+                self.rt_panic('makeslice: len out of range')
+            if self.branch(ln > self.max_alloc):
+                raise Unsupported('allocation of more than %d elements' % self.max_alloc)
             ln = self.concretize(ln)
             cp = ln if is_sym(cp) else cp
         if ln < 0 or cp < ln:
